@@ -54,7 +54,10 @@ Rewrites that do not change the meaning are brought to one form before anything 
   * the state handed through a loop or joined after an `if` is the tuple of the assigned variables in
     ALPHABETICAL order; a local bound to an expression is let-bound (bind, if it may raise) at that point, so
     the order of evaluation of everything that may raise is the order of the source;
-  * `"..." % (a, b)` with %s / %r fields is accepted as an exception message besides f-strings and str.format.
+  * `"..." % (a, b)` with %s / %r fields is accepted as an exception message besides f-strings and str.format;
+  * `math.floor(x)`, `math.ceil(x)`, `math.trunc(x)` and `round(x)` of a number are calls into the external structure
+    `mathops` (Units/Dispatch.v): a method that uses one takes it as its first parameter `X_`; the int they return is
+    read back as a number.
 Meaning given to them (the trusted part; the fixed PRELUDE spells it out in Gallina)
   * every method yields `result T` (`Val x | Raise kind`): exceptions are data;
   * Python objects range over `gval`: an instance of the c-th quantity class (float value, `_unit`), an SI
@@ -99,6 +102,9 @@ SRC = REPO / "src" / "pydsol" / "core" / "units.py"
 
 EXN = ("ValueError", "TypeError", "ZeroDivisionError", "KeyError", "AttributeError")
 CMP_METHODS = ["__eq__", "__ne__", "__lt__", "__le__", "__gt__", "__ge__"]
+ROUNDINGS = ["__floor__", "__ceil__", "__trunc__", "__round__"]
+# the integer roundings are external to units.py: a method that calls one takes the structure `mathops` as a parameter
+MATH_CALLS = {"floor": "m_floor", "ceil": "m_ceil", "trunc": "m_trunc"}
 
 # (class, method): the methods the hand-written model transcribes, in the order of the report
 METHODS = (
@@ -109,7 +115,8 @@ METHODS = (
     [("Quantity", m) for m in ["__new__", "__init__", "displayvalue", "si", "unit", "as_unit", "_val", "__neg__",
                                "__abs__", "__pos__", "__str__", "asSI", "sisig", "siunit", "sidict_to_unit"]] +
     [("SI", m) for m in ["__new__", "__init__", "displayvalue", "si", "unit", "sisig", "as_quantity", "_val",
-                         "__neg__", "__abs__", "__pos__", "__str__", "siunit", "str_to_sisig"]])
+                         "__neg__", "__abs__", "__pos__", "__str__", "siunit", "str_to_sisig"]] +
+    [(c, m) for c in ("Quantity", "SI") for m in ROUNDINGS])
 
 INTERFACE = set(METHODS)       # any other method of the two classes, and any module-level function, is a private helper
 
@@ -391,6 +398,7 @@ class Method:
         self.deps = []
         self.gname = f"gen_{cls}_{name}"
         self.done = False
+        self.uses_math = False
 
 
 class Ctx:
@@ -422,6 +430,7 @@ class Translator:
         self.records = []           # evidence
         self.ctx = None
         self.siunits = None
+        self.math_ok = False
         self.module_funcs = {}      # module-level functions (private helpers are translated at their call sites)
         self.inline_stack = []
         self.module_checks()
@@ -437,7 +446,9 @@ class Translator:
                 for a in st.names:
                     if a.name == "re" and a.asname is None:
                         re_ok = True
-                    elif (a.asname or a.name.split(".")[0]) in ("re", "SI", "Quantity", "Dimensionless"):
+                    elif a.name == "math" and a.asname is None:
+                        self.math_ok = True
+                    elif (a.asname or a.name.split(".")[0]) in ("re", "math", "round", "SI", "Quantity", "Dimensionless"):
                         self.fail(st, f"the name `{a.asname or a.name}` is rebound by an import")
             elif isinstance(st, ast.ImportFrom):
                 for a in st.names:
@@ -450,7 +461,7 @@ class Translator:
                 self.cls_nodes[st.name] = st
             elif isinstance(st, (ast.FunctionDef, ast.AsyncFunctionDef)):
                 if st.name in ("SI", "Quantity", "Dimensionless", "float", "int", "str", "type", "isinstance", "issubclass",
-                               "abs", "len", "list", "map", "range", "super", "re"):
+                               "abs", "len", "list", "map", "range", "super", "re", "math", "round"):
                     self.fail(st, f"module-level function rebinds `{st.name}`")
                 if isinstance(st, ast.FunctionDef) and not st.decorator_list:
                     if st.name in self.module_funcs:
@@ -462,7 +473,7 @@ class Translator:
                     for n in ast.walk(t):
                         if isinstance(n, ast.Name) and isinstance(n.ctx, (ast.Store, ast.Del)) and n.id in ("SI", "Quantity", "Dimensionless", "re", "float", "int", "str",
                                                                 "type", "isinstance", "issubclass", "abs", "len", "list", "map",
-                                                                "range"):
+                                                                "range", "math", "round"):
                             self.fail(st, f"module-level assignment rebinds `{n.id}`")
         self.re_ok = re_ok
         for c in ("Quantity", "SI", "Dimensionless"):
@@ -640,7 +651,8 @@ class Translator:
             self.fail(m.node, f"{m.cls}.{m.name} returns values of different kinds {sorted(kinds)}")
         statics = {s for _k, s in ctx.rets}
         m.ret = (kinds.pop(), statics.pop() if len(statics) == 1 else None)
-        ps = "".join(f" ({ident(n)} : {GTYPE[k]})" for n, k, _d in ([recv] if recv else []) + m.params)
+        ps = (" (X_ : mathops N)" if m.uses_math else "") + \
+            "".join(f" ({ident(n)} : {GTYPE[k]})" for n, k, _d in ([recv] if recv else []) + m.params)
         lo, hi = m.node.lineno, m.node.end_lineno
         self.defs.append((m.gname, f"(* {m.cls}.{m.name}  ({SRC.name}:{lo}-{hi}) *)\n"
                           f"Definition {m.gname}{ps} : result {paren(GTYPE[m.ret[0]])} :=\n  {USES}\n{ind(code)}."))
@@ -1326,6 +1338,11 @@ class Translator:
                 self.fail(at, f"self.{name} reads {missing} before __init__ assigned it")
             self.ctx.m.reads |= m.reads
         argv = self.arguments(m, args, at, env)
+        if m.uses_math:
+            self.ctx.m.uses_math = True
+            if m.deco in ("staticmethod", "classmethod"):
+                self.fail(at, f"{m.cls}.{m.name} uses the math roundings and is a {m.deco}")
+            return self.lift([recv] + argv, lambda c: E(m.ret[0], " ".join([m.gname, "X_"] + c), True, m.ret[1]))
         if m.deco == "staticmethod":
             return self.lift(argv, lambda c: E(m.ret[0], " ".join([m.gname] + c), True, m.ret[1]))
         if m.deco == "classmethod":
@@ -1431,6 +1448,8 @@ class Translator:
         for d in m.deps:
             if d not in self.ctx.m.deps:
                 self.ctx.m.deps.append(d)
+        if m.uses_math:
+            self.ctx.m.uses_math = True
         rec = self.source_record(m, f"inlined into {self.ctx.m.gname}")
         if not any(r["what"] == rec["what"] and r["method"] == rec["method"] for r in self.records):
             self.records.append(rec)
@@ -1531,6 +1550,12 @@ class Translator:
             if e.kind == "Z":
                 return self.lift([e], lambda c: E("S", f"py_str_of_int {c[0]}"))
             self.fail(n, f"str() of a value of kind {e.kind}")
+        if name == "round":
+            e = one()
+            if e.kind == "F":
+                self.ctx.m.uses_math = True
+                return self.lift([e], lambda c: E("F", f"m_round N X_ {c[0]}", True))
+            self.fail(n, f"round() of a value of kind {e.kind} (only the one-argument form on a number)")
         if name == "len":
             e = one()
             if e.kind == "S":
@@ -1611,6 +1636,13 @@ class Translator:
             if e.kind == "V":
                 return self.lift([e], lambda c: E("F", f"py_float_new {c[0]}", True))
             self.fail(n, f"float.__new__ of a value of kind {e.kind}")
+        if isinstance(v, ast.Name) and v.id == "math" and "math" not in env:
+            if a in MATH_CALLS and self.math_ok and len(args) == 1 and not n.keywords:
+                e = self.expr(args[0], env)
+                if e.kind == "F":
+                    self.ctx.m.uses_math = True
+                    return self.lift([e], lambda c: E("F", f"{MATH_CALLS[a]} N X_ {c[0]}", True))
+            self.fail(n, "math call other than math.floor / math.ceil / math.trunc of a number")
         if isinstance(v, ast.Name) and v.id == "re" and "re" not in env:
             if a == "match" and self.re_ok and len(args) == 2 and isinstance(args[0], ast.Constant) and args[0].value == "[0-9]":
                 e = self.expr(args[1], env)
@@ -1991,6 +2023,8 @@ class Translator:
                 if m0.deco in ("property", "staticmethod"):
                     self.fail(at, f"dynamic call of {cls}.{meth}, which is a {m0.deco}")
                 m = self.want(cls, meth, at)
+                if m.uses_math:
+                    self.fail(at, f"dynamic call of {cls}.{meth}, which uses the math roundings")
                 rets.append(m.ret)
                 pks.append([k for _n, k, _d in m.params])
                 av = "".join(f" a{i}_" for i in range(len(m.params)))
